@@ -57,8 +57,8 @@ def gen_vectorised(r, i, tier):
             frozen.add(npool)
     for _ in range(r.randint(4, 12 if tier == "quick" else 30)):
         c = r.random()
-        if c < 0.35:
-            live = [k for k in range(npool) if k not in frozen]
+        live = [k for k in range(npool) if k not in frozen]
+        if c < 0.35 and live:
             rs = rows(r.randint(0, 6))
             ops.append(("fillnp", r.choice(live), rs, [r.choice([1.0, 2.0, 0.5, 0.0, 0.25]) for _ in rs]))
         elif c < 0.6:
